@@ -669,7 +669,6 @@ fn fixture(big: bool) -> Database {
     }
     must(&mut db, "CREATE TABLE c (id INT PRIMARY KEY, tid INT, FOREIGN KEY (tid) REFERENCES t(id) ON DELETE CASCADE ON UPDATE CASCADE)");
     must(&mut db, "CREATE TABLE d (id INT PRIMARY KEY, pid INT, FOREIGN KEY (pid) REFERENCES p(id))");
-    must(&mut db, "CREATE INDEX s_k ON s (k)");
     must(&mut db, "CREATE VIEW vs AS SELECT id, k, v FROM s");
     must(&mut db, "INSERT INTO t VALUES (1, 10, 1), (2, 20, 2), (3, 99, 3)");
     must(&mut db, "INSERT INTO s VALUES (101, 10, 100), (102, 20, 200), (103, 30, 300)");
@@ -680,11 +679,16 @@ fn fixture(big: bool) -> Database {
     must(&mut db, "INSERT INTO d VALUES (1, 1)");
     if big {
         // more than 100 rows: the executor switches to vectorised / hash paths around that size
-        for i in 0..130 {
-            must(&mut db, &format!("INSERT INTO s VALUES ({}, {}, {})", 200 + i, 1000 + i, 400 + i));
-            must(&mut db, &format!("INSERT INTO m VALUES ({}, {}, {})", 10 + i, 2000 + i, 4 + i));
+        // (rows go in through the storage API: 260 parsed INSERT statements per case are too slow)
+        use vibesql_storage::Row;
+        use vibesql_types::SqlValue::Integer;
+        for i in 0..130i64 {
+            db.insert_row("S", Row::new(vec![Integer(200 + i), Integer(1000 + i), Integer(400 + i)])).expect("harness: insert_row S");
+            db.insert_row("M", Row::new(vec![Integer(10 + i), Integer(2000 + i), Integer(4 + i)])).expect("harness: insert_row M");
         }
     }
+    // after the rows: the index is built over the final contents
+    must(&mut db, "CREATE INDEX s_k ON s (k)");
     db
 }
 
@@ -721,14 +725,10 @@ fn count_star_table(s: &Select) -> Option<usize> {
         From::Table(t, _) => *t,
         _ => return None,
     };
-    match &s.grouping {
-        Some((keys, aggs)) if keys.is_empty() && aggs.len() == 1 && aggs[0].0 == AggFn::CountStar => {}
-        _ => return None,
-    }
-    if s.proj.len() == 1 && matches!(s.proj[0], Expr::Col(0, 0)) {
-        Some(t)
-    } else {
-        None
+    // the printed select list is exactly one COUNT(*) (aggregates that are not projected do not reach the SQL text)
+    match (&s.grouping, s.proj.as_slice()) {
+        (Some((keys, aggs)), [Expr::Col(0, i)]) if keys.is_empty() && aggs.get(*i).map(|a| a.0 == AggFn::CountStar).unwrap_or(false) => Some(t),
+        _ => None,
     }
 }
 
@@ -872,6 +872,7 @@ fn main() {
     let mut hcases: Vec<Vec<String>> = vec![Vec::new(); nshards];
     let mut pcases: Vec<Vec<String>> = vec![Vec::new(); nshards];
 
+    let t_start = std::time::Instant::now();
     // ---------------------------------------------------------------- Part A
     let nhist: u64 = if args.thorough { 6000 } else { 1400 };
     let mut crash_confirmed = 0u64;
@@ -1064,6 +1065,7 @@ fn main() {
     }
     sum.count_n("hist:crashes-confirmed", crash_confirmed);
 
+    let t_a = t_start.elapsed().as_secs_f64();
     // ---------------------------------------------------------------- Part B
     let table_names: Vec<&str> = vec!["T", "S", "M", "C", "U", "P", "D"];
     let mut pid: u64 = 1_000_000;
@@ -1112,7 +1114,7 @@ fn main() {
         }
         for (vi, (held, vkind)) in variants.iter().enumerate() {
             for big in [false, true] {
-                if big && !(vi < 1 + relevant.len() || args.thorough) {
+                if big && !(vi < 1 + relevant.len() || (args.thorough && vi % 3 == 0)) {
                     continue;
                 }
                 let id = pid;
@@ -1210,6 +1212,7 @@ fn main() {
         }
     }
 
+    let t_b = t_start.elapsed().as_secs_f64();
     // ---------------------------------------------------------------- Part C
     let ndb: u64 = if args.thorough { 900 } else { 150 };
     let per_db = 14;
@@ -1284,6 +1287,7 @@ fn main() {
         }
     }
 
+    let t_c = t_start.elapsed().as_secs_f64();
     // ---------------------------------------------------------------- Part D
     let mut did: u64 = 3_000_000;
     for (ai, acc) in ACC_SQL.iter().enumerate() {
@@ -1352,6 +1356,7 @@ fn main() {
             write_shard(&args, k, &text);
         }
     }
+    sum.notes.push(format!("seconds: histories {:.1}, paths {:.1}, blanket {:.1}", t_a, t_b - t_a, t_c - t_b));
     sum.notes.push(format!("{} privilege histories, {} path cases, {} blanket executions, {} schema-switch scenarios", nhist, pid - 1_000_000, qid - 2_000_000, did - 3_000_000));
     let _: Value = json!(null);
     sum.write(&args);
